@@ -5,7 +5,11 @@ ROOT = os.path.dirname(os.path.dirname(os.path.abspath(__file__)))
 man = json.load(open(os.path.join(ROOT, "MANIFEST.json")))
 ids = [json.loads(l)["id"] for l in open(os.path.join(ROOT, "properties.jsonl"))]
 checks, claimed = [], []
+# only properties the coordinator has verified (./check exits 0 on the current tree) are claimed
+verified = set(open(os.path.join(ROOT, "props", "claimed.txt")).read().split())
 for pid in ids:
+    if pid not in verified:
+        continue
     p = os.path.join(ROOT, "props", pid + ".json")
     if not os.path.exists(p):
         continue
